@@ -1033,7 +1033,7 @@ POSTCONDITION Accepted
 
 def fanin_validate(v, pid, tier):
     thorough = tier == "thorough"
-    runs, msgs = (12, 30) if not thorough else (120, 40)
+    runs, msgs = (30, 40) if not thorough else (200, 40)
     extra_args = []
     if pid == "C08":
         # only the retained rewriter and the re-subscriber, many rounds (the race window is narrow)
